@@ -4,7 +4,7 @@ pid = sys.argv[1]
 props = {json.loads(l)["id"]: json.loads(l) for l in open('/verif/properties.jsonl')}
 p = props[pid]
 d = "/tmp/mut_" + pid
-print(f"""You are working ONLY inside the scratch git worktree {d} — a checkout of the Rust proc-macro crate frozenlib/derive-ex (crate sources in {d}/derive-ex/src, its test-suite in {d}/derive-ex-tests/tests, user documentation in {d}/doc/derive_ex.md). Do not read or write anything outside {d} (in particular never look at /verif or /repo). The machine is offline: always pass --offline to cargo.
+print(f"""You are working ONLY inside the scratch git worktree {d} — a checkout of the Rust proc-macro crate frozenlib/derive-ex (crate sources in {d}/derive-ex/src, its test-suite in {d}/derive-ex-tests/tests, user documentation in {d}/doc/derive_ex.md). Do not read or write anything outside {d} (in particular never look at /verif, /repo or anything under /root/.claude). The machine is offline: always pass --offline to cargo.
 
 Here is a semantic property that derive-ex is supposed to satisfy:
 
